@@ -245,6 +245,15 @@ func (in *Interp) zero(t types.Type) Value {
 				if o.Name() == "Rat" {
 					return RatVal{}
 				}
+			case bnPkg:
+				switch o.Name() {
+				case "G1":
+					return GVal{grp: '1'}
+				case "G2":
+					return GVal{grp: '2'}
+				case "GT":
+					return GVal{grp: 'T'}
+				}
 			case "reflect":
 				if o.Name() == "Value" {
 					return RValue{}
